@@ -272,3 +272,77 @@ func WriteStandardGenAssets(root, bundled string) error {
 	}
 	return nil
 }
+
+// WritePreEncrypted writes a pre-encrypted (cenc) copy of a bundled $Number$ asset (video+audio reps) under root/name.
+// The copy is made with mp4ff's InitProtect/EncryptFragment from the bundled clear files.
+func WritePreEncrypted(root, bundled, name, srcAsset, srcMPD string, reps []string, key, kid, iv []byte) error {
+	dir := filepath.Join(root, name)
+	if err := os.MkdirAll(dir, 0755); err != nil {
+		return err
+	}
+	mpdRaw, err := os.ReadFile(filepath.Join(bundled, srcAsset, srcMPD))
+	if err != nil {
+		return err
+	}
+	if err := os.WriteFile(filepath.Join(dir, "gen.mpd"), mpdRaw, 0644); err != nil {
+		return err
+	}
+	kidUUID, err := mp4.NewUUIDFromHex(fmt.Sprintf("%x", kid))
+	if err != nil {
+		return err
+	}
+	for _, rep := range reps {
+		src := filepath.Join(bundled, srcAsset, rep)
+		if err := os.MkdirAll(filepath.Join(dir, rep), 0755); err != nil {
+			return err
+		}
+		ib, err := os.ReadFile(filepath.Join(src, "init.mp4"))
+		if err != nil {
+			return err
+		}
+		fi, err := mp4.DecodeFile(bytes.NewReader(ib))
+		if err != nil || fi.Init == nil {
+			return fmt.Errorf("init %s: %v", rep, err)
+		}
+		ipd, err := mp4.InitProtect(fi.Init, key, iv, "cenc", kidUUID, nil)
+		if err != nil {
+			return fmt.Errorf("InitProtect %s: %w", rep, err)
+		}
+		var ob bytes.Buffer
+		if err := fi.Init.Encode(&ob); err != nil {
+			return err
+		}
+		if err := os.WriteFile(filepath.Join(dir, rep, "init.mp4"), ob.Bytes(), 0644); err != nil {
+			return err
+		}
+		ents, _ := os.ReadDir(src)
+		for _, e := range ents {
+			if !strings.HasSuffix(e.Name(), ".m4s") {
+				continue
+			}
+			sb, err := os.ReadFile(filepath.Join(src, e.Name()))
+			if err != nil {
+				return err
+			}
+			fs, err := mp4.DecodeFile(bytes.NewReader(sb))
+			if err != nil {
+				return err
+			}
+			var out bytes.Buffer
+			for _, sg := range fs.Segments {
+				for _, fr := range sg.Fragments {
+					if err := mp4.EncryptFragment(fr, key, iv, ipd); err != nil {
+						return fmt.Errorf("EncryptFragment %s/%s: %w", rep, e.Name(), err)
+					}
+				}
+				if err := sg.Encode(&out); err != nil {
+					return err
+				}
+			}
+			if err := os.WriteFile(filepath.Join(dir, rep, e.Name()), out.Bytes(), 0644); err != nil {
+				return err
+			}
+		}
+	}
+	return nil
+}
